@@ -200,3 +200,10 @@ def digest(t):
 
 def state_hash(ws, world=None, extra=None, **kw):
     return digest(state_tuple(ws, world, extra, **kw))
+
+
+def module_fingerprint():
+    """Digest + readable listing of lomond's module- and class-level mutable state (see module_roots)."""
+    c = Canon(None)
+    items = tuple((k, _cheap(c, v)) for k, v in module_roots())
+    return digest(items), items
